@@ -52,7 +52,7 @@ theorem scanC_shift : ∀ (t : List Char) (n m k : Nat), scanC n t = some m → 
       rwa [show n + 1 + k = n + k + 1 by omega] at this
     · split
       · rename_i hc1 hc2
-        simp only [hc1, hc2, ↓reduceIte] at h
+        simp only [hc2, ↓reduceIte] at h
         cases n with
         | zero => simp at h
         | succ j =>
@@ -132,9 +132,39 @@ theorem Cl_S (t : String) (h : scanC 1 t.toList = some 0) : Cl [S t] := by
 theorem B.paren {x : Pieces} (hx : B x) : B ([S "("] ++ x ++ [S ")"]) :=
   Bk.close (j := 0) (Bk.appB (Bk_S "(" 1 (by decide)) hx) (Cl_S ")" (by decide))
 
-/-- explicit piece lists: evaluate -/
-macro "bal" : tactic => `(tactic| (first
-  | (right; intro n; simp [scan, scanP, scanC, S]; done)
-  | (intro n; simp [scan, scanP, scanC, S]; done)))
+theorem scanP_shift (p : Piece) (n m k : Nat) (h : scanP n p = some m) : scanP (n + k) p = some (m + k) := by
+  cases p with
+  | s t => exact scanC_shift t.toList n m k h
+  | raw t => exact scanC_shift t n m k h
+  | id x => simp only [scanP, Option.some.injEq] at h ⊢; omega
+  | c v => simp only [scanP, Option.some.injEq] at h ⊢; omega
+  | p v => simp only [scanP, Option.some.injEq] at h ⊢; omega
+  | bad => simp only [scanP, Option.some.injEq] at h ⊢; omega
+
+theorem scan_shift : ∀ (ps : Pieces) (n m k : Nat), scan n ps = some m → scan (n + k) ps = some (m + k) := by
+  intro ps
+  induction ps with
+  | nil => intro n m k h; simp only [scan, Option.some.injEq] at h ⊢; omega
+  | cons p r ih =>
+    intro n m k h
+    simp only [scan] at h ⊢
+    cases hp : scanP n p with
+    | none => simp [hp] at h
+    | some j =>
+      rw [hp] at h
+      rw [scanP_shift p n j k hp]
+      exact ih j m k h
+
+/-- an explicit piece list: evaluate once from depth 0 (closed computation, `rfl`) -/
+theorem Bk_of (ps : Pieces) (k : Nat) (h : scan 0 ps = some k) : Bk k ps := by
+  right; intro n
+  have := scan_shift ps 0 k n h
+  simpa [Nat.add_comm] using this
+theorem Cl_of (ps : Pieces) (h : scan 1 ps = some 0) : Cl ps := by
+  intro n
+  have := scan_shift ps 1 0 n h
+  simpa [Nat.add_comm] using this
+
+macro "bal" : tactic => `(tactic| first | exact Bk_of _ _ (by rfl) | exact Cl_of _ (by rfl))
 
 end SeaQ.Balance
